@@ -45,39 +45,32 @@ WHOLE_VALUE = {
 ALIAS_FUNCS = {'abs'}
 
 # explicit raise / assert sites allowed inside the printing pipeline: (function, normalised text) -> reason
+# explicit raise / assert sites allowed inside the printing pipeline, per function: number of (not implied) asserts and
+# the exception classes raised, each with the reason it cannot make a bundled printer fail on an instance of its own
+# type.  Keyed by function and *kind*, not by the text of the asserted expression, so rewriting an assert does not matter;
+# an additional assert / a new exception class in the function does.
 MAY_RAISE_ALLOWED = {
-    ('pretty_cnamedtuple', 'raise _'):
-        'cached resolution failure; the only caller catches Exception and prints a plain tuple',
-    ('commentdoc', 'raise ValueError'):
-        'empty comment text; every call site tests the comment for truthiness first',
-    ('str_to_lines', 'assert _ > 0'):
-        'the caller passes max(..., 10) (C12.c floor)',
-    ('str_to_lines', 'assert isinstance(_, bytes)'):
-        'str/bytes are the only registered types of the string printer',
-    ('determine_quote_strategy', 'assert _ and _'):
-        'both early returns above it handle the other cases',
-    ('pretty_str.<locals>.evaluator', 'assert _ == MULTILINE_STRATEGY_INDENTED'):
-        'the four strategies are a closed set; the three others are handled above',
-    ('_run_pretty_visited', 'raise ValueError'):
-        'return-type validation demanded by C14',
-    ('_run_pretty', 'raise ValueError'):
-        'return-type validation demanded by C14',
-    ('best_layout', 'raise ValueError'): 'unknown document kind / mode (C04.a default branch)',
-    ('fast_fitting_predicate', 'raise ValueError'): 'unknown document kind / mode (C04.a default branch)',
-    ('smart_fitting_predicate', 'raise ValueError'): 'unknown document kind / mode (C04.a default branch)',
-    ('validate_doc', 'raise ValueError'): 'rejects non-documents handed to a combinator',
-    ('PrettyContext._replace', 'assert _.issubset(set(_))'): 'programming-error guard on field names',
-    ('CommentAnnotation.__init__', 'assert isinstance(_, str)'): 'comment text must be str',
-    ('Nest.__init__', 'assert isinstance(_, int)'): 'programming-error guard',
-    ('Nest.__init__', 'assert isinstance(_, (Doc, str))'): 'programming-error guard (accepts every document)',
-    ('Group.__init__', 'assert isinstance(_, (Doc, str))'): 'programming-error guard (accepts every document)',
-    ('AlwaysBreak.__init__', 'assert isinstance(_, (Doc, str))'): 'programming-error guard (accepts every document)',
-    ('SLine.__init__', 'assert isinstance(_, int)'): 'programming-error guard',
-    ('register_pretty', 'raise ValueError'): 'argument validation at registration time',
-    ('register_pretty.<locals>.decorator', 'raise ValueError'): 'signature validation at registration time',
-    ('register_pretty.<locals>.decorator', 'assert callable(predicate)'): 'validated above',
-    ('is_registered', 'raise ValueError'): 'flag combination validation',
-    ('pretty_call_alt', 'raise'): '',
+    'pretty_cnamedtuple': ({'raise _': 'cached resolution failure; the only caller catches Exception and prints a plain tuple'}, 0),
+    'commentdoc': ({'raise ValueError': 'empty comment text; every call site tests the comment for truthiness first'}, 0),
+    'str_to_lines': ({}, 3),        # max_len > 0 (C12.c floor) and the two bytes type checks
+    '_default_split_patterns': ({}, 1),
+    'determine_quote_strategy': ({}, 1),
+    'pretty_str.<locals>.evaluator': ({}, 1),   # the four strategies are a closed set
+    '_run_pretty_visited': ({'raise ValueError': 'return-type validation demanded by C14'}, 0),
+    '_run_pretty': ({'raise ValueError': 'return-type validation demanded by C14'}, 0),
+    'best_layout': ({'raise ValueError': 'unknown document kind / mode (C04.a default branch)'}, 0),
+    'fast_fitting_predicate': ({'raise ValueError': 'unknown document kind / mode'}, 0),
+    'smart_fitting_predicate': ({'raise ValueError': 'unknown document kind / mode'}, 0),
+    'validate_doc': ({'raise ValueError': 'rejects non-documents handed to a combinator'}, 0),
+    'PrettyContext._replace': ({}, 1),
+    'CommentAnnotation.__init__': ({}, 1),
+    'Nest.__init__': ({}, 2),
+    'Group.__init__': ({}, 1),
+    'AlwaysBreak.__init__': ({}, 1),
+    'SLine.__init__': ({}, 1),
+    'register_pretty': ({'raise ValueError': 'argument validation at registration time'}, 0),
+    'register_pretty.<locals>.decorator': ({'raise ValueError': 'signature validation at registration time'}, 1),
+    'is_registered': ({'raise ValueError': 'flag combination validation'}, 0),
 }
 
 
@@ -339,6 +332,7 @@ def run(repo, rep):
 
     # ---------------------------------------------------------------- C07.e
     n = 0
+    assert_seen = {}
     cone, graph, fns = effects.print_cone(repo)
     for k in sorted(cone):
         f = fns[k]
@@ -370,11 +364,20 @@ def run(repo, rep):
             if isinstance(s, ast.Raise) and any(isinstance(d, list) for d in [f.node.body]) and _in_default_branch(s, par):
                 rep.ok('C07.e', '%s:%s' % (f.qualname, label), '%s:%d' % (f.module.relpath, s.lineno), 'default branch of a closed dispatch')
                 continue
-            reason = MAY_RAISE_ALLOWED.get((f.qualname, label))
-            rep.check(reason is not None, 'C07.e', '%s:%s' % (f.qualname, label), '%s:%d' % (f.module.relpath, s.lineno),
-                      reason or '',
-                      '%s contains "%s" inside the printing pipeline and it is not in the reasoned allow-table: a bundled printer '
-                      'can fail on an instance of its own type' % (f.qualname, label), nontrivial=True)
+            allowed_raises, allowed_asserts = MAY_RAISE_ALLOWED.get(f.qualname, ({}, 0))
+            if isinstance(s, ast.Assert):
+                assert_seen[f.qualname] = assert_seen.get(f.qualname, 0) + 1
+                okk = assert_seen[f.qualname] <= allowed_asserts
+                rep.check(okk, 'C07.e', '%s:assert#%d' % (f.qualname, assert_seen[f.qualname]), '%s:%d' % (f.module.relpath, s.lineno),
+                          'one of the %d reasoned programming-error guards of this function' % allowed_asserts,
+                          '%s contains the assertion "%s" inside the printing pipeline (%d allowed there, each reasoned in the checker): a bundled '
+                          'printer can fail on an instance of its own type' % (f.qualname, src(s.test)[:80], allowed_asserts), nontrivial=True)
+            else:
+                reason = allowed_raises.get(label)
+                rep.check(reason is not None, 'C07.e', '%s:%s' % (f.qualname, label), '%s:%d' % (f.module.relpath, s.lineno),
+                          reason or '',
+                          '%s contains "%s" inside the printing pipeline and it is not in the reasoned allow-table: a bundled printer '
+                          'can fail on an instance of its own type' % (f.qualname, label), nontrivial=True)
         # constant-index subscripts on possibly empty local sequences
         defs = {}
         for s in ast.walk(f.node):
